@@ -44,11 +44,12 @@ import (
 const watchdog = 20 * time.Second
 
 var (
-	mu       sync.Mutex
-	prefix   string
-	procBy   map[string][][2]string // program -> (file, line)
-	fanouts  atomic.Int64
-	loadAlls atomic.Int64
+	mu        sync.Mutex
+	prefix    string
+	procBy    map[string][][2]string // program -> (file, line)
+	fanByFile = map[string]int64{}   // file name carried by a fanned-out line -> count
+	fanouts   atomic.Int64
+	loadAlls  atomic.Int64
 )
 
 func expInt(name string) int64 {
@@ -108,7 +109,12 @@ func TestC25(t *testing.T) {
 			time.Sleep(time.Duration(d))
 		}
 	}
-	fh := func(l *logline.LogLine) { fanouts.Add(1) }
+	fh := func(l *logline.LogLine) {
+		fanouts.Add(1)
+		mu.Lock()
+		fanByFile[l.Filename]++
+		mu.Unlock()
+	}
 	lah := func() { loadAlls.Add(1) }
 	vm.VerifLineHook.Store(&lh)
 	mrt.VerifFanoutHook.Store(&fh)
@@ -320,21 +326,37 @@ func oneRun(t *testing.T, r *ev.Run, g *ev.RNG, base string, run int) (string, i
 	logA := filepath.Join(logDir, "a.log")
 	logB := filepath.Join(logDir, "b.log")
 	_ = os.WriteFile(logA, []byte("before tailing\n"), 0o644)
+	// c.log is a symbolic link to a file elsewhere (a "current" link)
+	logC := filepath.Join(logDir, "c.log")
+	_ = os.MkdirAll(filepath.Join(dir, "real"), 0o755)
+	_ = os.WriteFile(filepath.Join(dir, "real", "c.2026-09-22"), []byte("before tailing\n"), 0o644)
+	_ = os.Symlink(filepath.Join(dir, "real", "c.2026-09-22"), logC)
 	written := map[string]int64{}
 	streamW, patternW := fsdrv.NewStepWaker(), fsdrv.NewStepWaker()
 	sock := filepath.Join(dir, "http.sock")
 	store := metrics.NewStore()
 	ctx, cancel := context.WithCancel(context.Background())
 	defer cancel()
-	m, err := mtail.New(ctx, store, mtail.ProgramPath(progDir), mtail.LogPathPatterns(filepath.Join(logDir, "*.log")),
-		mtail.LogstreamPollWaker(streamW), mtail.LogPatternPollWaker(patternW), mtail.BindUnixSocket(sock))
+	sopts := []mtail.Option{mtail.ProgramPath(progDir), mtail.LogPathPatterns(filepath.Join(logDir, "*.log")),
+		mtail.LogstreamPollWaker(streamW), mtail.LogPatternPollWaker(patternW), mtail.BindUnixSocket(sock)}
+	// what the binary's flags turn on by default or commonly
+	if run%2 == 1 {
+		sopts = append(sopts, mtail.LogRuntimeErrors)
+	}
+	if run%3 == 1 {
+		sopts = append(sopts, mtail.OmitMetricSource, mtail.EmitMetricTimestamp)
+	}
+	if run%4 == 3 {
+		sopts = append(sopts, mtail.SyslogUseCurrentYear, mtail.OmitProgLabel)
+	}
+	m, err := mtail.New(ctx, store, sopts...)
 	if err != nil {
 		return "server-start: " + err.Error(), 0, 0
 	}
 	scan() // the initial LoadAllPrograms
 	runDone := make(chan error, 1)
 	go func() { runDone <- m.Run() }()
-	live := 1
+	live := 2
 	barrier := func() string {
 		streamW.Broadcast()
 		if !fsdrv.Await(func() bool { return streamW.Waiting() >= live }, watchdog) {
@@ -342,7 +364,7 @@ func oneRun(t *testing.T, r *ev.Run, g *ev.RNG, base string, run int) (string, i
 		}
 		return ""
 	}
-	if !fsdrv.Await(func() bool { return streamW.Waiting() >= 1 && patternW.Waiting() >= 1 }, watchdog) {
+	if !fsdrv.Await(func() bool { return streamW.Waiting() >= live && patternW.Waiting() >= 1 }, watchdog) {
 		return "INCONCLUSIVE startup barrier\n" + dump(), 0, 0
 	}
 	seq := 0
@@ -399,14 +421,18 @@ func oneRun(t *testing.T, r *ev.Run, g *ev.RNG, base string, run int) (string, i
 		var s string
 		switch g.Intn(8) {
 		case 0, 1, 2:
-			s = appendLines(logA, g.Range(1, 6))
+			if g.Intn(3) == 0 {
+				s = appendLines(logC, g.Range(1, 4))
+			} else {
+				s = appendLines(logA, g.Range(1, 6))
+			}
 		case 3:
 			if !bExists {
 				_ = os.WriteFile(logB, nil, 0o644)
 				bExists = true
 				patternW.Broadcast()
-				live = 2
-				if !fsdrv.Await(func() bool { return patternW.Waiting() >= 1 && streamW.Waiting() >= 2 }, watchdog) {
+				live++
+				if !fsdrv.Await(func() bool { return patternW.Waiting() >= 1 && streamW.Waiting() >= live }, watchdog) {
 					s = "INCONCLUSIVE new log not picked up\n" + dump()
 				}
 			} else {
@@ -477,6 +503,21 @@ func oneRun(t *testing.T, r *ev.Run, g *ev.RNG, base string, run int) (string, i
 	for path, n := range written {
 		if got := expMap("log_lines_total", path); got != n {
 			return fmt.Sprintf("log_lines_total[%s]=%d, %d lines were written to it", filepath.Base(path), got, n), reloads, 0
+		}
+	}
+	// each log's count is the lines delivered FROM it: the name a delivered
+	// line carries must be the name its count is kept under
+	mu.Lock()
+	byFile := map[string]int64{}
+	for f, n := range fanByFile {
+		if strings.HasPrefix(f, dir) {
+			byFile[f] = n
+		}
+	}
+	mu.Unlock()
+	for f, n := range byFile {
+		if got := expMap("log_lines_total", f); got != n {
+			return fmt.Sprintf("log_lines_total[%s]=%d, but %d delivered lines carry that file name", strings.TrimPrefix(f, dir), got, n), reloads, 0
 		}
 	}
 	if int(liveAtEnd) != live {
